@@ -20,10 +20,10 @@ Definition tt_code (t : ttype) : Z :=
 
 Definition sl := option (Z * Z).
 
-(* Lexer: r, err (true = the "unexpected NULL character" error is stored), inTag, text, attrVal *)
-Record xst := mkX { xr : lx; xerr : bool; xin : bool; xtext : sl; xattr : sl }.
+(* Lexer: r, err (true = the "unexpected NULL character" error is stored), inTag, inPI, text, attrVal *)
+Record xst := mkX { xr : lx; xerr : bool; xin : bool; xpi : bool; xtext : sl; xattr : sl }.
 
-Definition xml_init (data : list Z) : xst := mkX (lx_init data) false false None None.
+Definition xml_init (data : list Z) : xst := mkX (lx_init data) false false false None None.
 
 (* Lexer.Err(): 0 = nil, 1 = io.EOF (from the Input), 2 = the stored parse error *)
 Definition xml_err (s : xst) : Z := if xerr s then 2 else if at_end (xr s) then 1 else 0.
@@ -45,22 +45,25 @@ Fixpoint at_l (pat l : list Z) : option bool :=
                end
   end.
 
-(* "(c == '/' || c == '?') && Peek(1) == '>'": Peek(1) is read only for '/' and '?' *)
-Definition closer_ahead (c : Z) (t : list Z) : option bool :=
-  if (c =? 47) || (c =? 63)
-  then match t with [] => None | c1 :: _ => Some (c1 =? 62) end
+(* l.atTagEnd(c) on the byte c and the bytes t after it: inside a processing instruction (pi) only "?>"
+   ends the tag, otherwise '>', "/>" and "?>" do; Peek(1) is read only for '?' resp. '/' and '?' *)
+Definition tag_end (pi : bool) (c : Z) (t : list Z) : option bool :=
+  if pi then
+    if c =? 63 then match t with [] => None | c1 :: _ => Some (c1 =? 62) end else Some false
+  else if c =? 62 then Some true
+  else if (c =? 47) || (c =? 63) then match t with [] => None | c1 :: _ => Some (c1 =? 62) end
   else Some false.
 
 (* the name loops of shiftStartTag (eq=false), shiftAttribute's name (eq=true: also stops at '=')
    and the unquoted attribute value (eq=false): bytes moved *)
-Fixpoint scan_name (eq : bool) (l : list Z) : option Z :=
+Fixpoint scan_name (pi eq : bool) (l : list Z) : option Z :=
   match l with
   | [] => None
   | c :: t =>
-      ca <- closer_ahead c t ;;
-      if (c =? 32) || (eq && (c =? 61)) || (c =? 62) || ca || (c =? 9) || (c =? 10) || (c =? 13) || (c =? 0)
+      te <- tag_end pi c t ;;
+      if (c =? 32) || (eq && (c =? 61)) || te || (c =? 9) || (c =? 10) || (c =? 13) || (c =? 0)
       then Some 0
-      else n <- scan_name eq t ;; Some (1 + n)
+      else n <- scan_name pi eq t ;; Some (1 + n)
   end.
 
 (* loops of shiftCommentText / shiftCDATAText: stop at the 3-byte closer (true) or at a 0 byte (false) *)
@@ -134,9 +137,9 @@ Definition norm_range (b : list Z) (lo hi : Z) : list Z :=
 (* result of a shift* function: text, token coordinates, cursor afterwards *)
 Definition sres : Type := sl * (Z * Z) * lx.
 
-Definition shift_start_tag (z : lx) : option sres :=
+Definition shift_start_tag (pi : bool) (z : lx) : option sres :=
   let nameStart := mark z in
-  n <- scan_name false (suffix z) ;;
+  n <- scan_name pi false (suffix z) ;;
   let z1 := mv z n in
   t <- lex_sub z1 nameStart (mark z1) ;;
   sh <- shift_c z1 ;;
@@ -183,16 +186,29 @@ Definition shift_doctype (z : lx) : option sres :=
   Some (Some t, fst sh, snd sh).
 
 (* the quoted attribute value: cursor is just after the opening quote *)
-Definition quoted_value (delim : Z) (z : lx) : option lx :=
-  n <- scan_while (until delim) (suffix z) ;;
+(* the loop of the quoted value: stops at the closing quote, at a 0 byte, and inside a processing
+   instruction at "?>" (c == 0 || l.inPI && l.atTagEnd(c)): bytes moved *)
+Fixpoint scan_quoted (pi : bool) (delim : Z) (l : list Z) : option Z :=
+  match l with
+  | [] => None
+  | c :: t =>
+      if c =? delim then Some 0
+      else
+        te <- (if pi then tag_end true c t else Some false) ;;
+        if (c =? 0) || te then Some 0
+        else n <- scan_quoted pi delim t ;; Some (1 + n)
+  end.
+
+Definition quoted_value (pi : bool) (delim : Z) (z : lx) : option lx :=
+  n <- scan_quoted pi delim (suffix z) ;;
   let z1 := mkLx (norm_range (lbuf z) (lpos z) (lpos z + n)) (lpos z + n) (lstart z) in
   c <- pk z1 0 ;;
   Some (if c =? delim then mv z1 1 else z1).
 
 (* shiftAttribute: text, attrVal, token coordinates, cursor *)
-Definition shift_attribute (z : lx) : option (sl * sl * (Z * Z) * lx) :=
+Definition shift_attribute (pi : bool) (z : lx) : option (sl * sl * (Z * Z) * lx) :=
   let nameStart := mark z in
-  n1 <- scan_name true (suffix z) ;;
+  n1 <- scan_name pi true (suffix z) ;;
   let z1 := mv z n1 in
   let nameEnd := mark z1 in
   n2 <- scan_while is_ws (suffix z1) ;;
@@ -205,8 +221,8 @@ Definition shift_attribute (z : lx) : option (sl * sl * (Z * Z) * lx) :=
           delim <- pk z4 0 ;;
           let attrPos := mark z4 in
           z6 <- (if (delim =? 34) || (delim =? 39)
-                 then quoted_value delim (mv z4 1)
-                 else n4 <- scan_name false (suffix z4) ;; Some (mv z4 n4)) ;;
+                 then quoted_value pi delim (mv z4 1)
+                 else n4 <- scan_name pi false (suffix z4) ;; Some (mv z4 n4)) ;;
           a <- lex_sub z6 attrPos (mark z6) ;;
           Some (z6, Some a)
         else Some (rewind z2 nameEnd, None)) ;;
@@ -234,48 +250,49 @@ Definition next (s : xst) : option (ttype * sl * xst) :=
     n <- scan_while is_ws (suffix z) ;;
     let z1 := mv z n in
     c <- pk z1 0 ;;
-    if c =? 0 then Some (TError, None, mkX z1 (null_err z1 (xerr s)) true None None)
+    if c =? 0 then Some (TError, None, mkX z1 (null_err z1 (xerr s)) true (xpi s) None None)
     else
-      isattr <- (if c =? 62 then Some false
+      isattr <- (if xpi s then (if c =? 63 then c1 <- pk z1 1 ;; Some (negb (c1 =? 62)) else Some true)
+                 else if c =? 62 then Some false
                  else if (c =? 47) || (c =? 63) then c1 <- pk z1 1 ;; Some (negb (c1 =? 62))
                  else Some true) ;;
       if isattr then
-        r <- shift_attribute z1 ;;
-        Some (TAttribute, Some (snd (fst r)), mkX (snd r) (xerr s) true (fst (fst (fst r))) (snd (fst (fst r))))
+        r <- shift_attribute (xpi s) z1 ;;
+        Some (TAttribute, Some (snd (fst r)), mkX (snd r) (xerr s) true (xpi s) (fst (fst (fst r))) (snd (fst (fst r))))
       else
         let z2 := skip z1 in
         if c =? 47 then
-          sh <- shift_c (mv z2 2) ;; Some (TStartTagCloseVoid, Some (fst sh), mkX (snd sh) (xerr s) false None None)
+          sh <- shift_c (mv z2 2) ;; Some (TStartTagCloseVoid, Some (fst sh), mkX (snd sh) (xerr s) false false None None)
         else if c =? 63 then
-          sh <- shift_c (mv z2 2) ;; Some (TStartTagClosePI, Some (fst sh), mkX (snd sh) (xerr s) false None None)
+          sh <- shift_c (mv z2 2) ;; Some (TStartTagClosePI, Some (fst sh), mkX (snd sh) (xerr s) false false None None)
         else
-          sh <- shift_c (mv z2 1) ;; Some (TStartTagClose, Some (fst sh), mkX (snd sh) (xerr s) false None None)
+          sh <- shift_c (mv z2 1) ;; Some (TStartTagClose, Some (fst sh), mkX (snd sh) (xerr s) false false None None)
   else
     n <- scan_while (until 60) (suffix z) ;;
     let z1 := mv z n in
     c <- pk z1 0 ;;
     if 0 <? mark z1 then
       sh <- shift_c z1 ;;
-      Some (TText, Some (fst sh), mkX (snd sh) (xerr s) false (Some (fst sh)) (xattr s))
+      Some (TText, Some (fst sh), mkX (snd sh) (xerr s) false (xpi s) (Some (fst sh)) (xattr s))
     else if c =? 60 then
       c1 <- pk z1 1 ;;
       if c1 =? 47 then
         r <- shift_end_tag (mv z1 2) ;;
-        Some (TEndTag, Some (snd (fst r)), mkX (snd r) (xerr s) false (fst (fst r)) (xattr s))
+        Some (TEndTag, Some (snd (fst r)), mkX (snd r) (xerr s) false (xpi s) (fst (fst r)) (xattr s))
       else
         sp <- (if c1 =? 33 then bang (mv z1 2) else Some None) ;;
         match sp with
-        | Some (ty, r) => Some (ty, Some (snd (fst r)), mkX (snd r) (xerr s) false (fst (fst r)) (xattr s))
+        | Some (ty, r) => Some (ty, Some (snd (fst r)), mkX (snd r) (xerr s) false (xpi s) (fst (fst r)) (xattr s))
         | None =>
             if c1 =? 63 then
-              r <- shift_start_tag (mv z1 2) ;;
-              Some (TStartTagPI, Some (snd (fst r)), mkX (snd r) (xerr s) true (fst (fst r)) (xattr s))
+              r <- shift_start_tag true (mv z1 2) ;;
+              Some (TStartTagPI, Some (snd (fst r)), mkX (snd r) (xerr s) true true (fst (fst r)) (xattr s))
             else
-              r <- shift_start_tag (mv z1 1) ;;
-              Some (TStartTag, Some (snd (fst r)), mkX (snd r) (xerr s) true (fst (fst r)) (xattr s))
+              r <- shift_start_tag (xpi s) (mv z1 1) ;;
+              Some (TStartTag, Some (snd (fst r)), mkX (snd r) (xerr s) true (xpi s) (fst (fst r)) (xattr s))
         end
     else
-      Some (TError, None, mkX z1 (null_err z1 (xerr s)) false None (xattr s)).
+      Some (TError, None, mkX z1 (null_err z1 (xerr s)) false (xpi s) None (xattr s)).
 
 (* Drive Next: the trace of (type, token, state after) for at most [fuel] calls, stopping after the
    first ErrorToken; [None] = a panic somewhere. *)
